@@ -134,7 +134,7 @@ static int cmp_tag(const void *a, const void *b, void *priv)
 {
     uint32_t x = untag(a), y = untag(b);
     (void)priv;
-    return (x > y) - (x < y);
+    return sim_cmp((x > y) - (x < y));
 }
 
 /* ------------------------------------------------------------------ audit */
